@@ -1,5 +1,5 @@
 import LunaVerif.Lemmas.C12SigRefine
-import LunaVerif.Props.C13Space
+import LunaVerif.Props.C13Foreign
 /-!
 # C12 / C14 — `cycle_refines_event` for the stream OUT endpoint (`USBStreamOutEndpoint`)
 
@@ -33,10 +33,12 @@ The bus observation (`cycWires`) decodes the endpoint's outputs: ACK / NAK reque
     register, the acceptor is in `idle`) moves nothing but the boundary detector (`ref_data_unarmed`).
 
 Limits (stated as hypotheses `EvOk` / `histOk`): a data packet while the registers name this endpoint follows a token
-accepted by this device and fits into the FIFO (the event level's `legalEvent`); and — C13's acceptor, which
-describes the packet's shape, bounds every packet by the endpoint's max packet size — so do the packets of
-transactions to other endpoints or devices (in particular the 8-byte SETUP packets: `max_packet_size ≥ 8` for
-histories with control transfers).
+accepted by this device and fits into the FIFO (the event level's `legalEvent`).  The packets of transactions to OTHER
+endpoints or devices may have ANY length (C13's acceptor bounds a packet by `max_packet_size` only when the token
+registers name the endpoint, `lenOk`): the 8-byte SETUP packets of control transfers next to a 4-byte OUT endpoint and
+the packets of an endpoint with a larger `max_packet_size` are inside the hypotheses (`exHistory4` below).  `segOkStrict`
+is the former hypothesis (every bus packet bounded by this endpoint's `max_packet_size`); it implies `segOk`
+(`segOkStrict_imp`).
 -/
 set_option linter.unusedSimpArgs false
 set_option linter.unusedVariables false
@@ -746,6 +748,50 @@ theorem segOk_bad {c : Config} {t : Tok} {pidT : Nat} {p : List Nat} {seg tail :
   simp only [segOk, Bool.and_eq_true, List.all_eq_true, Bool.false_eq_true, if_false, beq_iff_eq] at h
   exact ⟨fun j hj => calm_inv (h.1 j hj), h.2⟩
 
+/-- the former, stricter hypothesis (C13's acceptor before its generalisation, `Phase.stepStrict`): EVERY packet on
+the bus, also one that follows a token for another endpoint, is bounded by this endpoint's `max_packet_size` -/
+def segOkStrict (c : Config) (t : Tok) (pidT : Nat) (p : List Nat) (crcOk : Bool) (seg : List In) (resp : In)
+    (tail : List In) : Bool :=
+  (seg ++ tail).all calm &&
+  if crcOk then
+    match Phase.runStrict c (.tok t) seg with
+    | some pk =>
+      pktOf pk == some (pidT, p) &&
+      (match pk.stepStrict c resp with
+       | some p' => Phase.runStrict c p' tail == some .idle
+       | none => false) &&
+      resp.rxReady && !resp.tokReady && !resp.clearHalt && !resp.ready && !resp.tokNew
+    | none => false
+  else Phase.runStrict c (.tok t) (seg ++ tail) == some .idle
+
+/-- the former hypothesis implies the generalised one: the refinement theorems below also hold for it -/
+theorem segOkStrict_imp {c : Config} {t : Tok} {pidT : Nat} {p : List Nat} {crcOk : Bool} {seg tail : List In}
+    {resp : In} (h : segOkStrict c t pidT p crcOk seg resp tail = true) : segOk c t pidT p crcOk seg resp tail = true := by
+  cases crcOk with
+  | false =>
+    simp only [segOkStrict, Bool.and_eq_true, Bool.false_eq_true, if_false, beq_iff_eq] at h
+    simp only [segOk, Bool.and_eq_true, Bool.false_eq_true, if_false, beq_iff_eq]
+    exact ⟨h.1, runStrict_imp h.2⟩
+  | true =>
+    simp only [segOkStrict, if_true] at h
+    simp only [segOk, if_true]
+    cases hr : Phase.runStrict c (.tok t) seg with
+    | none => simp [hr] at h
+    | some pk =>
+      simp only [hr] at h
+      simp only [runStrict_imp hr]
+      cases hs : pk.stepStrict c resp with
+      | none => simp [hs] at h
+      | some p' =>
+        simp only [hs] at h
+        simp only [stepStrict_imp hs]
+        cases ht : Phase.runStrict c p' tail with
+        | none => simp [ht] at h
+        | some pf =>
+          simp only [ht] at h
+          simp only [runStrict_imp ht]
+          exact h
+
 /-- the cycles of the event -/
 def dataCyc (crcOk : Bool) (seg : List In) (resp : In) (tail : List In) : List In :=
   if crcOk then seg ++ resp :: tail else seg ++ tail
@@ -789,7 +835,7 @@ theorem ref_data_own {c : Config} (hmps : 1 ≤ c.mps) (e : OutState) {t : Tok} 
   have ha := answered_own (c := c) htk ht hpkt hrx
   have hlen : p.length ≤ c.mps := by
     rw [← answered_seen ha]
-    exact seen_le_mps hrun (by simp [Phase.seen])
+    exact seen_le_mps hrun (by simp [Phase.seen]) (answered_forUs ha)
   intro s hr
   -- up to the response request
   obtain ⟨a1, a2⟩ := ref_quiet (e := e) hmps seg hrun (fun j hj => (hq1 j hj).1) s hr
@@ -1340,6 +1386,40 @@ example : ∃ e' a', (C12.sliceFinal {} exEc (Device.init, .sout {}) (exHistory.
     cycObs {} exEc Device.init init exHistory
       = (C12.sliceRun {} exEc (Device.init, .sout {}) (exHistory.map (·.1))).map wiresOf :=
   out_cycle_refines_run {} exEc (by decide) (by decide) exHistory Device.init {} false init (by decide +kernel)
+    (rel_init _)
+
+/-! ### Non-vacuity of the generalised hypothesis: stream OUT endpoint 2, max packet size 4, buffer 7
+
+The bus also carries a 20-byte packet for endpoint 1 and the 8-byte SETUP packet of a control transfer: both are
+longer than this endpoint's max packet size; the former hypothesis (`segOkStrict`) rejects their cycle sequences. -/
+
+def exEc4 : EpCfg := ⟨.streamOut, 2, 4, 7⟩
+
+def exHistory4 : List (HostEvent × Gaps) :=
+  [(.token PID_OUT 0 2, exGaps), exData out2 PID_DATA0 [11, 12, 13, 14] true,
+   (.token PID_OUT 0 1, exGaps), exData ⟨PID_OUT, 1⟩ PID_DATA0 (List.range 20) true,
+   (.token Device.PID_SETUP 0 0, exGaps), exData ⟨Device.PID_SETUP, 0⟩ PID_DATA0 [0x02, 1, 0, 0, 0x02, 0, 0, 0] true,
+   (.token Device.PID_IN 0 0, exGaps), (.handshake PID_ACK, exGaps),
+   (.token PID_OUT 0 2, exGaps), exData out2 PID_DATA0 [41] true,
+   (.consume 2 9, exGaps)]
+
+example : histOk {} exEc4 Device.init {} false exHistory4 = true := by decide +kernel
+example :
+    let g := (exData ⟨Device.PID_SETUP, 0⟩ PID_DATA0 [0x02, 1, 0, 0, 0x02, 0, 0, 0] true).2
+    segOk (cfgOf exEc4) (tokOf ⟨Device.PID_SETUP, 0⟩) 0 [0x02, 1, 0, 0, 0x02, 0, 0, 0] true g.seg g.resp g.tail = true ∧
+    segOkStrict (cfgOf exEc4) (tokOf ⟨Device.PID_SETUP, 0⟩) 0 [0x02, 1, 0, 0, 0x02, 0, 0, 0] true g.seg g.resp g.tail
+      = false := by decide +kernel
+example : cycObs {} exEc4 Device.init init exHistory4 =
+    [[], [.ack], [], [], [], [], [], [], [], [.ack],
+     [.xfer (11, true, false), .xfer (12, false, false), .xfer (13, false, false), .xfer (14, false, false),
+      .xfer (41, false, true)]] := by decide +kernel
+/-- the hypotheses of `out_cycle_refines_run` hold for this history from reset -/
+example : ∃ e' a', (C12.sliceFinal {} exEc4 (Device.init, .sout {}) (exHistory4.map (·.1))).2 = .sout e' ∧
+    Rel (cfgOf exEc4) e' (runState (cfgOf exEc4) init (expandAll {} exEc4 Device.init exHistory4))
+      (phOf a' (tkD (C12.sliceFinal {} exEc4 (Device.init, .sout {}) (exHistory4.map (·.1))).1)) ∧
+    cycObs {} exEc4 Device.init init exHistory4
+      = (C12.sliceRun {} exEc4 (Device.init, .sout {}) (exHistory4.map (·.1))).map wiresOf :=
+  out_cycle_refines_run {} exEc4 (by decide) (by decide) exHistory4 Device.init {} false init (by decide +kernel)
     (rel_init _)
 
 end LunaVerif.C12Out
